@@ -45,6 +45,11 @@ impl<T: Target + 'static> Updater<T> {
     pub(crate) async fn run(self) -> anyhow::Result<()> {
         tracing::info!("starting update");
 
+        #[cfg(bgpfu_verif)]
+        if let Some(outcome) = crate::verif::scripted_job().await {
+            return outcome;
+        }
+
         let mut netconf_client = self
             .target
             .connect()
